@@ -288,6 +288,10 @@ def get_facts(repo=None):
     os.makedirs(CACHE, exist_ok=True)
     final = os.path.join(CACHE, key)
     if os.path.exists(os.path.join(final, 'meta.json')):
+        try:
+            os.utime(final, None)          # recently used: concurrent runs on other trees trim the cache by age
+        except OSError:
+            pass
         return final
     lock = open(os.path.join(CACHE, '.lock'), 'w')
     fcntl.flock(lock, fcntl.LOCK_EX)
